@@ -30,6 +30,10 @@ var unit = ev.Unit[Case]{
 			d, ops, _ := gen.Bulk(t)
 			return Case{Doc: d.Text(false), Patch: ref.OpsText(ops, false), Neg: rapid.Bool().Draw(t, "bneg")}
 		}
+		if gen.OneIn(t, 400, "manyops") {
+			d, ops := gen.ManyOps(t)
+			return Case{Doc: d.Text(false), Patch: ref.OpsText(ops, false), Neg: rapid.Bool().Draw(t, "mneg")}
+		}
 		doc := gen.Default.Root().Draw(t, "doc")
 		neg := rapid.Bool().Draw(t, "neg")
 		g := gen.NewOpGen(neg)
